@@ -265,7 +265,8 @@ func c17Conservation(c *Ctx, add *ssa.Function) {
 						if !isBo {
 							continue
 						}
-						if z, isZ := constInt(bo.Y); isZ && z == 0 && bo.Op == token.EQL && f.Val && isSeq(bo.X) {
+						// the zero test may be made on the expected number or on the arriving one (they are equal here)
+						if z, isZ := constInt(bo.Y); isZ && z == 0 && bo.Op == token.EQL && f.Val && (isSeq(bo.X) || describeVal(bo.X) == "arg0.Seq") {
 							seq0 = true
 						}
 						if bo.Op == token.NEQ && !f.Val && isSeq(bo.Y) || bo.Op == token.EQL && f.Val && isSeq(bo.Y) {
@@ -554,7 +555,14 @@ func c17RowBlank(c *Ctx, fn *ssa.Function) (bool, string) {
 			}
 			unknown = describeVal(v)
 		case *ssa.Call:
-			if g := x.Call.StaticCallee(); g != nil && g.Pkg == fn.Pkg && g.Signature.Results().Len() == 1 && len(g.Blocks) > 0 {
+			g := x.Call.StaticCallee()
+			if g == nil && !x.Call.IsInvoke() {
+				// a function literal of data itself (`blankRow := func() []float64 {…}`)
+				if lit := closureOf(resolveOnceV(x.Call.Value)); lit != nil && lit.Parent() == fn {
+					g = lit
+				}
+			}
+			if g != nil && g.Pkg == fn.Pkg && g.Signature.Results().Len() == 1 && len(g.Blocks) > 0 {
 				c.Saw("function " + shortFn(g))
 				for _, b := range g.Blocks {
 					if r, isR := b.Instrs[len(b.Instrs)-1].(*ssa.Return); isR {
@@ -580,7 +588,13 @@ func c17RowBlank(c *Ctx, fn *ssa.Function) (bool, string) {
 			return true
 		}
 		if ld, isL := isLoad(v); isL { // `nan` captured or spilled
-			if al, isAl := ld.X.(*ssa.Alloc); isAl {
+			cell := ld.X
+			if fv, isFV := cell.(*ssa.FreeVar); isFV {
+				if b := bindingOf(fv); b != nil {
+					cell = b
+				}
+			}
+			if al, isAl := cell.(*ssa.Alloc); isAl {
 				n, good := 0, 0
 				for _, r := range refs(al) {
 					if st, isSt := r.(*ssa.Store); isSt && st.Addr == ssa.Value(al) {
